@@ -6,6 +6,7 @@ package main
 import (
 	"fmt"
 	"go/token"
+	"strings"
 	"go/types"
 	"math/big"
 
@@ -63,6 +64,12 @@ func init() {
 			ln := app(SInt, "slen", s)
 			st.assume(And(app(SBool, "<=", IntLit(-1), r), app(SBool, "<", r, ln)))
 			st.assume(Implies(app(SBool, ">=", r, IntLit(0)), Eq(app(SInt, "sat", s, r), c)))
+			if base, off, vlen, ok := strView(s); ok {
+				// the same facts in absolute indices of the string the argument is a slice of
+				st.assume(Implies(app(SBool, ">=", r, IntLit(0)), Eq(app(SInt, "sat", base, app(SInt, "+", off, r)), c)))
+				hi := Ite(app(SBool, ">=", r, IntLit(0)), app(SInt, "+", off, r), app(SInt, "+", off, vlen))
+				st.assume(Term{fmt.Sprintf("(forall ((k!s Int)) (! (=> (and (<= %s k!s) (< k!s %s)) (not (= (sat %s k!s) %s))) :pattern ((sat %s k!s))))", off.S, hi.S, base.S, c.S, base.S), SBool})
+			}
 			st.assume(Term{fmt.Sprintf("(forall ((j!s Int)) (! (=> (and (<= 0 j!s) (< j!s (ite (>= %s 0) %s %s))) (not (= (sat %s j!s) %s))) :pattern ((sat %s j!s))))", r.S, r.S, ln.S, s.S, c.S, s.S), SBool})
 			return []Val{{K: VTerm, T: r, Typ: intT}}
 		},
@@ -187,6 +194,86 @@ func init() {
 			x.store(fr, st, in, a[0], a[1], types.NewPointer(t))
 			return nil
 		},
+	}
+}
+
+// strView recognises a string term that is a slice of another string: (v_ssub base lo hi).
+func strView(s Term) (base, off, ln Term, ok bool) {
+	if !strings.HasPrefix(s.S, "(v_ssub ") {
+		return
+	}
+	parts := sexpr(s.S)
+	if len(parts) != 1 {
+		return
+	}
+	l, isList := parts[0].([]any)
+	if !isList || len(l) != 4 {
+		return
+	}
+	base = Term{sexprString(l[1]), SStr}
+	off = Term{sexprString(l[2]), SInt}
+	hi := Term{sexprString(l[3]), SInt}
+	ln = app(SInt, "-", hi, off)
+	// nested views: offsets add up
+	if b2, o2, _, ok2 := strView(base); ok2 {
+		return b2, app(SInt, "+", o2, off), ln, true
+	}
+	return base, off, ln, true
+}
+
+// pureExtern: standard-library functions that are pure functions of their arguments (no heap
+// effect); the result is an uninterpreted function of the arguments (a fresh value when an
+// argument is a slice, whose contents the function reads).
+var pureExterns = []string{
+	"path/filepath.Base", "path/filepath.Clean", "path/filepath.Dir", "path/filepath.FromSlash", "path/filepath.IsAbs",
+	"path/filepath.Join", "path/filepath.Match", "path/filepath.Rel", "path/filepath.Split", "path/filepath.ToSlash",
+	"path/filepath.VolumeName", "os.IsPathSeparator", "strings.Join", "strings.TrimSuffix", "strings.TrimPrefix",
+	"strings.ToLower", "strings.Index", "strings.LastIndex", "strings.Repeat", "strings.TrimRight", "strings.TrimLeft",
+	"unicode/utf8.DecodeRuneInString", "unicode/utf8.RuneLen", "unicode.IsLetter", "unicode.ToUpper", "unicode.ToLower",
+	"os.Getenv", "os.TempDir", "runtime.GOROOT", "time.Unix", "(time.Time).Unix", "math/rand.Intn", "math/rand.Int", "math/rand.Uint32", "strconv.FormatUint", "strconv.FormatInt",
+}
+
+func init() {
+	// avfs.volumeNameLen is filepath.volumeNameLen (go:linkname, no body): a length between 0 and len(path)
+	stdStubs["github.com/avfs/avfs.volumeNameLen"] = func(x *Exec, fr *Frame, st *State, in ssa.Instruction, a []Val) []Val {
+		r := x.enc.UF("ext.filepath.volumeNameLen", SInt, a[0].T)
+		st.assume(And(app(SBool, "<=", IntLit(0), r), app(SBool, "<=", r, app(SInt, "slen", a[0].T))))
+		return []Val{{K: VTerm, T: r, Typ: types.Typ[types.Int]}}
+	}
+	for _, name := range pureExterns {
+		name := name
+		stdStubs[name] = func(x *Exec, fr *Frame, st *State, in ssa.Instruction, a []Val) []Val {
+			sig := in.(ssa.CallInstruction).Common().Signature()
+			var ts []Term
+			fresh := strings.HasPrefix(name, "math/rand.") || strings.HasPrefix(name, "os.") || strings.HasPrefix(name, "runtime.")
+			for _, v := range a {
+				if v.K == VSlice {
+					fresh = true
+					continue
+				}
+				if v.K == VTerm {
+					ts = append(ts, v.T)
+				} else {
+					ts = append(ts, flatten(v)...)
+				}
+			}
+			var res []Val
+			for i := 0; i < sig.Results().Len(); i++ {
+				rt := sig.Results().At(i).Type()
+				sorts := x.enc.sortsOf(rt)
+				if fresh || len(sorts) != 1 {
+					v, inv := x.enc.freshVal(rt, "ext."+name)
+					st.assumeAll(inv)
+					v.Typ = rt
+					res = append(res, v)
+					continue
+				}
+				v := Val{K: VTerm, T: x.enc.UF(fmt.Sprintf("ext.%s.%d", name, i), sorts[0], ts...), Typ: rt}
+				st.assumeAll(x.enc.typeInv(rt, v))
+				res = append(res, v)
+			}
+			return res
+		}
 	}
 }
 
